@@ -81,14 +81,19 @@ Definition pstate_eqb (a b : pstate) : bool :=
    peer        internal state of the untouched peer at the export point
    pre, post   (epoch, seq) of every record the side put on the wire before / after
    x2p, p2x    Some b: at least one record was written in that direction after the resume and
-               b = "everything written was delivered, in order" *)
+               b = "everything written was delivered, in order"
+   start       (MinVersion, MaxVersion) of the handshake configuration the Conn was resumed with,
+               "HandshakeContext returned nil at once" (the Conn started in the finished state),
+               "ConnectionState() was available between Resume and the first Handshake/Read/Write" *)
 Definition main_case :=
-  (istate * pstate * pstate * istate * istate * list (N * N) * list (N * N) * option bool * option bool)%type.
+  (istate * pstate * pstate * istate * istate * list (N * N) * list (N * N) * option bool * option bool *
+   (N * N * bool * bool))%type.
 
 Definition flow_ok (pred : bool) (obs : option bool) : bool :=
   match obs with None => true | Some b => Bool.eqb pred b end.
 
-Definition main_ok (c : main_case) : bool :=
+Definition main_traffic_ok
+  (c : istate * pstate * pstate * istate * istate * list (N * N) * list (N * N) * option bool * option bool) : bool :=
   let '(before, exported, decoded, after, peer, pre, post, x2p, p2x) := c in
   let e := i_local_epoch before in
   (* the wire numbers before the export are what the sender model allocates, and the counters of
@@ -125,6 +130,15 @@ Definition main_ok (c : main_case) : bool :=
       flow_ok (delivers s' peer) x2p && flow_ok (delivers peer s') p2x
   end.
 
+Definition main_ok (c : main_case) : bool :=
+  let '(before, exported, decoded, after, peer, pre, post, x2p, p2x, start) := c in
+  let '(vmin, vmax, started, early_ok) := start in
+  (* whatever versions the options allow, the resume state is honoured *)
+  Bool.eqb started (hs_start_eqb (handshake_start vmin vmax true) StartFinished) &&
+  (* as coded the state is installed lazily: nothing is reported before the first I/O *)
+  Bool.eqb early_ok (match gen_state (resumed_conn_before_start after) with Ok _ => true | _ => false end) &&
+  (negb started || main_traffic_ok (before, exported, decoded, after, peer, pre, post, x2p, p2x)).
+
 (* ---------------- corruption leg ----------------
    input       Some z when the mutation was applied to the serializedState value itself
                (re-encoded with gob); None for byte-level damage (gob layer, not modelled)
@@ -132,8 +146,10 @@ Definition main_ok (c : main_case) : bool :=
    dec         the decoded State (meaningful when dec_ok)
    peer        the good state of the untouched peer, exported at the same point
    resume_ok   resumeWithConfig + Handshake returned nil
-   x2p, p2x    one record each way was delivered (the corrupted side writes first) *)
-Definition corrupt_case := (option sstate * bool * pstate * pstate * bool * bool * bool)%type.
+   x2p, p2x    one record each way was delivered (the corrupted side writes first)
+   k, post     number of writes the resumed (corrupted) side attempted and the (epoch, seq) of the
+               records it put on the wire *)
+Definition corrupt_case := (option sstate * bool * pstate * pstate * bool * bool * bool * N * list (N * N))%type.
 
 Definition write_goes_out (x : istate) : bool :=
   (get (i_local_seq x) (i_local_epoch x) <=? max_seq) &&
@@ -144,7 +160,7 @@ Definition wraps_cid (x : istate) : bool :=
   match i_remote_cid x with [] => false | _ => true end.
 
 Definition corrupt_ok (c : corrupt_case) : bool :=
-  let '(input, dec_ok, dec, peer, resume_ok, x2p, p2x) := c in
+  let '(input, dec_ok, dec, peer, resume_ok, x2p, p2x, k, post) := c in
   match input with
   | Some z => match unmarshal z with
               | Some p => dec_ok && pstate_eqb p dec
@@ -157,7 +173,9 @@ Definition corrupt_ok (c : corrupt_case) : bool :=
     | Some x, Some t =>
         resume_ok && Bool.eqb x2p (delivers x t) &&
         (* (a state that would write in epoch 0 no longer gets this far: gen_internal refuses it) *)
-        Bool.eqb p2x (delivers t x)
+        Bool.eqb p2x (delivers t x) &&
+        (* the numbers it uses: from the decoded number on, nothing beyond 2^48 - 1, no wrap *)
+        pairs_eqb (emitted (i_local_seq x) (repeat (i_local_epoch x) (N.to_nat k))) post
     | None, Some _ => negb resume_ok
     | _, None => false
     end
@@ -176,6 +194,43 @@ Definition vc_ok (c : vc_case) : bool :=
               | None => negb dec_ok
               end
   | None => negb dec_ok
+  end.
+
+(* ---------------- export near the sequence number limit ----------------
+   st0         LocalSequenceNumber of the side after its counter was moved close to 2^48
+   i           writes attempted before the export (those beyond 2^48 - 1 fail and still count)
+   before      internal state at the export point
+   peer        internal state of the untouched peer at the export point
+   pre         records put on the wire by those writes
+   resumed     UnmarshalBinary + resumeWithConfig + Handshake returned nil
+   k, post     writes attempted by the resumed connection, records it put on the wire
+   p2x         one record of the peer was written after the resume and b = "it was delivered" *)
+Definition limit_case :=
+  (list N * N * istate * istate * list (N * N) * bool * N * list (N * N) * option bool)%type.
+
+Definition limit_ok (c : limit_case) : bool :=
+  let '(st0, i, before, peer, pre, resumed, k, post, p2x) := c in
+  let e := i_local_epoch before in
+  pairs_eqb (emitted st0 (repeat e (N.to_nat i))) pre &&
+  nlist_eqb (counters_after st0 (repeat e (N.to_nat i))) (i_local_seq before) &&
+  match import_export before with
+  | None => negb resumed
+  | Some s' =>
+      resumed && pairs_eqb (emitted (i_local_seq s') (repeat e (N.to_nat k))) post &&
+      disjointb pre post && nodupb (pre ++ post) && flow_ok (delivers peer s') p2x
+  end.
+
+(* ---------------- ConnectionState() while the handshake runs ----------------
+   (internal state at a point where the state machine is between two steps;
+    0 = a State was returned, 1 = not available, 2 = run-time panic; the State) *)
+Definition mid_case := (istate * N * pstate)%type.
+
+Definition mid_ok (c : mid_case) : bool :=
+  let '(s, obs, got) := c in
+  match gen_state s with
+  | Ok p => (obs =? 0) && pstate_eqb p got
+  | Refused => obs =? 1
+  | Panics => obs =? 2
   end.
 
 (* ---------------- suite table leg ----------------
